@@ -255,7 +255,7 @@ def c05(tier, seed, only=None):
         j["cfg"]["render"] = True
         if tier != "quick":
             # every transition costs two deserialisations: a smaller breadth-first prefix per exploration
-            j["cfg"]["max_states"] = 2500
+            j["cfg"]["max_states"] = 600
         name = j["scn"]["name"]
         if tier == "quick":
             # every transition costs two deserialisations here: keep the quick tier small
